@@ -12,6 +12,7 @@ pub mod c02;
 pub mod c03;
 pub mod c04;
 pub mod c10;
+pub mod smooth;
 
 pub fn lookup(id: &str) -> Option<Prop> {
     Some(match id {
@@ -20,6 +21,10 @@ pub fn lookup(id: &str) -> Option<Prop> {
         "C03" => Prop { header: c03::HEADER, generate: c03::generate, exec: c03::exec },
         "C04" => Prop { header: c04::HEADER, generate: c04::generate, exec: c04::exec },
         "C10" => Prop { header: c10::HEADER, generate: c10::generate, exec: c10::exec },
+        "C15" => Prop { header: smooth::H15, generate: smooth::gen15, exec: smooth::exec15 },
+        "C13" => Prop { header: smooth::H13, generate: smooth::gen13, exec: smooth::exec13 },
+        "C14" => Prop { header: smooth::H14, generate: smooth::gen14, exec: smooth::exec14 },
+        "C06" => Prop { header: smooth::H06, generate: smooth::gen06, exec: smooth::exec06 },
         _ => return None,
     })
 }
